@@ -193,8 +193,8 @@ Definition trav_indices (ro : bool) (idx : list node) (p : ptr) (st : store) : r
           each (fun ix st1 =>
                   let* n1 := if ro then Ok n else deref_r st1 p in
                   match n1, ix with
-                  | Map es1, Scalar _ v => trav_map ro v p es1 st1
-                  | _, _ => Unsup
+                  | Map es1, Scalar TStr v => trav_map ro v p es1 st1
+                  | _, _ => Unsup      (* non-string keys are outside the JSON-model fragment *)
                   end) idx st
       end
   | Scalar _ _ => Ok ([], st)
@@ -608,7 +608,10 @@ Fixpoint split_on (fuel : nat) (sep s cur : str) : list str :=
       end
   end.
 
-(* deleteChildOperator's loop *)
+(* deleteChildOperator's loop: victims back to front, each once.  A victim
+   that an earlier deletion already detached is gone (identity no longer in
+   any Content, and map deletion by its key finds nothing in the JSON-model
+   fragment with unique keys). *)
 Fixpoint del_loop (fuel : nat) (victims : list ptr) (cx : list ptr) (st0 : store) : res out :=
   match fuel with
   | O => Ok (cx, st0)
@@ -630,8 +633,9 @@ Fixpoint del_loop (fuel : nat) (victims : list ptr) (cx : list ptr) (st0 : store
               let* pn := deref_r st0 par in
               match key_of st0 v with
               | Some k =>
-                  let* pn' := delete_child pn k in
-                  let removed := removed_positions pn k in
+                  let pos := last (snd v) O in
+                  let* pn' := delete_child pn k pos in
+                  let removed := removed_positions pn k pos in
                   del_loop f (shift_ptrs par removed rest) (shift_ptrs par removed cx) (update st0 par (fun _ => pn'))
               | None => Panic
               end
@@ -1045,6 +1049,9 @@ Fixpoint eval (fuel : nat) (e : expr) (ro : bool) (vs : vars) (ctx : list ptr) (
                              go pr (acc ++ [(rk, p)]) (snd o)
                          | [] => Ok (acc, st1)
                          end) (child_ptrs c n) [] st0 in
+                    (* ints and strings are compared by text when mixed: outside the fragment *)
+                    let has c := existsb (fun a => (fst (fst (fst a))) =? c) (fst r) in
+                    if has 3 && has 4 then Unsup else
                     let sorted := stable_sort (fun a b => rank_leb (fst a) (fst b)) (fst r) in
                     let* items := collect_items (snd r) (List.map snd sorted) [] in
                     one (alloc_repl (snd r) c (Seq items))
